@@ -22,7 +22,7 @@ CHECKS.update({
  'C15': ('exploration', 'bounded exhaustive enumeration (all nodes, all ordered pairs, all replacement maps of a pool) against structural/semantic reference',
          'Pool with every node kind, segmented memory, assignments, flagged identifiers, and all single-point mutants/twins of the exemplars: '
          'unary laws on every node, the full equality matrix over all ordered pairs (symmetric, transitive, == xor !=, equal => equal hash '
-         'and equal irsem value), every replacement map with |d| <= 2 over the sub-terms against reference substitution, canonize value.',
+         'and equal irsem value), every replacement map with |d| <= 2 over the sub-terms against reference substitution, chained maps whose keys are matched only by rebuilt nodes (1..4 chained keys x 0..3 further rebuilt operands), canonize value.',
          'Trusts irsem and the neutral-tree walker; segment override treated as a different address space.', '4 C15'),
  'C16': ('exploration', 'bounded exhaustive enumeration: dependency probing on the full valuation grid + reference unifier',
          'For every tree of the read-set family the real dependence on each identifier / memory cell is decided on the complete valuation '
@@ -33,7 +33,7 @@ CHECKS.update({
 CHECKS.update({
  'C13': ('exploration', 'bounded exhaustive enumeration with metamorphic oracles (idempotence, all permutations x bracketings, cross-process hash-seed comparison)',
          'Idempotence on a fresh structural copy of every simplified tree of the families; for every multiset of 2..4 operands from a 12-element '
-         'alphabet with tie-twins (and pairs differing in one field of one node) and each of + * ^ & |, ALL permutations x ALL binary bracketings + the flat form must simplify identically, also over shared operand objects and below 11 one-hole contexts; '
+         'alphabet with tie-twins (and pairs differing in one field of one node) and each of + * ^ & |, ALL permutations x ALL binary bracketings + the flat form must simplify identically, also over shared operand objects and below 11 one-hole contexts; the same law over constant-rich operand lists (complement, negation, 1, all-ones, sign bit, half-width masks) at 8/32/64 bits; '
          'every rendering (simplified enumeration, decoded text in both syntaxes, lifted semantics, read sets, machine dumps) is recomputed in '
          'fresh processes under PYTHONHASHSEED 0..3 (thorough 0..7) and compared line by line.',
          'Metamorphic: no external oracle. Seed independence is decided for the enumerated seeds only.', '4 C13'),
@@ -41,7 +41,7 @@ CHECKS.update({
          'Every tree of the families x every binding pattern {absent, boundary constants, symbolic expressions incl. cond-of-constants} per '
          'identifier, plus same-address memory cells of 8/16/32 bits read back at 8..64 bits through constant/symbolic/unbound bases, each on a '
          'fresh eval_abs; result compared with reference substitution on all 2^16 valuations (w=8) or the boundary product; all-constant inputs '
-         'must fold to the ExprInt the operators define (n-ary included; rotate-through-carry counts 0..31 at 8/16/32 bits; counts wider than the value).',
+         'must fold to the ExprInt the operators define (n-ary included; rotate-through-carry counts 0..31 at 8/16/32 bits; counts wider than the value). Structured bindings: two registers bound to adjacent/overlapping slices of one symbol evaluated several times on ONE machine, and conditions that evaluate to c ? k1 : k2 for every constant pair.',
          'Trusts irsem. Memory bindings only at addresses already in evaluated form (overlap is C07).', '4 C06'),
 })
 CHECKS.update({
@@ -49,18 +49,18 @@ CHECKS.update({
          'Every string of S_x86 (prefix sets x 4 opcode maps x all 256 opcodes x all 256 ModRM x SIB classes x tails) is decoded by the real '
          'x86mnemo.dis and by GNU objdump on the same padded slot; length, raw bytes and the normal form of the Intel rendering (mnemonic class, '
          'operand kinds, registers, base/index/scale, displacement, segment, immediate, size keyword, branch displacement) are compared; a '
-         'difference counts only if llvm-mc does not side with miasmX. Strings rejected by either decoder or carrying a superfluous prefix are skipped. '
+         'difference counts only if llvm-mc does not side with miasmX; a second rendering of the same decoded object must equal the first. Strings rejected by either decoder or carrying a superfluous prefix are skipped. '
          'Quick: 7 prefix sets over the full ModRM x 14 SIB classes + 13 prefix pairs over a reduced ModRM set; thorough: 18 prefix sets x 5 tails.',
          'Trusts GNU objdump 2.40 + llvm-mc 14 and the synonym/normal-form table in mc/x86ref.py. Tail bytes are fixed patterns.', '4 C01'),
  'C17': ('exploration', 'bounded exhaustive enumeration against a hand-written control-flow table and the target formula',
          'Every string of S_x86 both decoders accept: breakflow/splitflow/dstflow against the IA-32 control-flow table (cross-checked per case with '
          'objdump\'s mnemonic), getnextflow = offset + length; every direct relative form x boundary displacements x 20 instruction offsets up to '
-         '2^32-3 through a virtual 4 GiB stream (incl. 66, 67 and 66+67 prefixed forms in both orders): getdstflow = offset + length + sext(disp) mod 2^opsize.',
+         '2^32-3 through a virtual 4 GiB stream (incl. 66, 67 and 66+67 prefixed forms in both orders): getdstflow = offset + length + sext(disp) mod 2^opsize, read again after rendering the instruction in every output format.',
          'Trusts the control-flow table in mc/props/c17.py and objdump for the cross-check.', '4 C17'),
 })
 CHECKS.update({
  'C10': ('exploration', 'bounded exhaustive enumeration of byte strings (with every truncation and stream offset) and of token sequences against a totality contract',
-         'Every string of S_x86 without any filter, every shorter prefix of every distinct decoded instruction, and decoding from streams at offsets '
+         'Every string of S_x86 without any filter (plus fwait in front of every x87 opcode x every ModRM), every shorter prefix of every distinct decoded instruction, and decoding from streams at offsets '
          '0/1/7 with and without trailing bytes; every token sequence up to length 3 over 64 tokens, 5 over 12, 7 (thorough 8) over 5, and every '
          'single-token edit of a corpus of valid lines (incl. all bracket productions and constant arithmetic), through asm and asm_att. Contract: None or a renderable instruction with consistent '
          'length/offset bookkeeping; a repeated size prefix consumes exactly one more byte; a list or ValueError; 5 s CPU-time watchdog.',
@@ -104,7 +104,7 @@ CHECKS.update({
          'The quick tier caps each form at 3000 states (every k-th element of the product) and is therefore not exhaustive; the thorough tier is.',
          'Trusts the host CPU, the undefined-flag table and irsem. 32-bit values only from the boundary alphabet.', '4 C04'),
  'C07': ('model_checking', 'explicit-state BFS over the real emul_lines/eval_instr with canonical-state de-duplication, every trace replayed against a concrete byte machine',
-         'BFS over instruction sequences (alphabet encoded by GNU as; quick: depth 3 over 18 instructions, thorough: depth 3 over 30 and depth 4 over 18; canonical state = digest of the pool dump, failing and already-seen states not '
+         'BFS over instruction sequences (alphabet encoded by GNU as; quick: depth 3 over 23 instructions, thorough: depth 3 over 38 and depth 4 over 23; the same search over 7 small interacting alphabets to depth 10 (thorough 12) for accumulating arithmetic/exchanges, 6-8 for push/pop and store/load, 3-4 over byte/word register moves, 2-3 over sub-register logic+shifts with a third sign-bit valuation; canonical state = digest of the pool dump, failing and already-seen states not '
          'expanded) with the invariant "every register, flag and 8/16/32-bit read-back over the touched windows equals the concrete little-endian byte machine '
          'running the same lifted IR" under 2 valuations; ALL store/load histories with 1..2 (thorough 3) stores + 1 load over widths 8/16/32 x offsets 0..7 x '
          'constant/symbolic base, each history in a forked child (a failing 3-store history is attributed to its failing 2-store sub-history); rep string instructions (F3 and F2 forms) with counts 0..3 and at the runaway-guard boundary against the architectural loop.',
@@ -115,7 +115,7 @@ CHECKS.update({
          'location that changes must be in the union of get_w, and every byte of the data window the processor changes must lie inside a memory destination of get_w evaluated in the base state; every byte whose value alone changes a result must lie inside a memory cell of get_r(mem_read=True) evaluated in the base state (for segment forms a fault caused by the perturbation is a result).',
          'Dependencies are decided on 3 base states x 2 perturbations per location. MXCSR, FIP/FDP/FOP and x87/MMX aliasing are outside the universe.', '4 C08'),
  'C12': ('model_checking', 'explicit-state exploration of API-call histories on the real library (fork per history from a pristine image), pure-function model',
-         'ALL histories of length 1..2 (thorough 3 over a 26-call sub-alphabet) over an alphabet of 41 API calls (incl. instruction objects held across calls) run in forked children of a pristine image; after each history every probe '
+         'ALL histories of length 1..2 (thorough 3 over a 26-call sub-alphabet) over an alphabet of 43 API calls (incl. instruction objects held across calls), plus a wide alphabet of 100 further calls (width-aware lifts under prefix variants, bare-prefix / fragment / rejected assembler lines) as histories of length 1 probed by all 143 calls, run in forked children of a pristine image; after each history every probe '
          'runs in its own grand-child and must equal its pristine result (the model); hidden-state fingerprints give states/transitions and the closure of the '
          'fingerprint set; failures are attributed to their shortest failing sub-history. Plus all ordered pairs of a 269-line assembler alphabet sharing operand text, input immutability over expression trees, instruction objects, the lifter\'s address argument and '
          'machines, and 11 parser-table cache configurations (incl. a stale table generated by the real PLY from a mutated grammar), each in a fresh process.',
